@@ -91,6 +91,19 @@ func (a *NilAnalysis) regKey(v ssa.Value) string {
 		return "p:" + x.Name()
 	case *ssa.ChangeType:
 		return a.regKey(x.X)
+	case *ssa.BinOp:
+		// c*x computed twice from the same register is the same number (registers are immutable)
+		if x.Op == token.MUL && isIntegerT(x.Type()) {
+			for _, pair := range [][2]ssa.Value{{x.X, x.Y}, {x.Y, x.X}} {
+				if n, ok := constInt(pair[1]); ok {
+					if _, isConst := pair[0].(*ssa.Const); !isConst {
+						if t, k, ok := a.intTerm(pair[0]); ok && t != "" {
+							return fmt.Sprintf("m:%d*(%s%+d)", n, t, k)
+						}
+					}
+				}
+			}
+		}
 	case *ssa.Field:
 		// a field of a struct-valued parameter (value receivers) is as immutable as the parameter
 		if base := a.regKey(x.X); strings.HasPrefix(base, "p:") {
@@ -458,10 +471,21 @@ func (g *cgraph) defineBinOp(x *ssa.BinOp, key string) {
 			}
 		}
 	case token.MUL:
-		if n, ok := constInt(x.Y); ok && n >= 0 {
-			if lo, _, ok := g.boundsLo(a.regKey(x.X)); ok && lo >= 0 {
-				g.le(zeroTerm, key, 0)
+		for _, pair := range [][2]ssa.Value{{x.X, x.Y}, {x.Y, x.X}} {
+			n, ok := constInt(pair[1])
+			if !ok || n < 0 || n > 1<<20 {
+				continue
 			}
+			if _, isConst := pair[0].(*ssa.Const); isConst {
+				continue
+			}
+			if lo, _, ok := g.boundsLo(a.regKey(pair[0])); ok && lo >= 0 {
+				g.le(zeroTerm, key, -lo*n)
+			}
+			if _, hi, ok := g.bounds(a.regKey(pair[0])); ok && hi >= 0 && hi < 1<<40 {
+				g.le(key, zeroTerm, hi*n)
+			}
+			break
 		}
 	case token.ADD:
 		// sum of two non-negative registers is non-negative (constants are handled by linear())
